@@ -17,7 +17,7 @@ import VerifModel.Base.Arr
     Meanabs   np.mean(np.abs(x))
     Absmean   np.abs(np.mean(x))
     Quantile  np.percentile(x, q*100)   default method 'linear', NaN propagates, [] -> IndexError
-    Change    x[-1] - x[0]       interior NaNs are not looked at, [] -> IndexError
+    Change    x[-1] - x[0]       (np.take along the axis) interior NaNs are not looked at, [] -> IndexError
     AbsChange |x[-1] - x[0]|
   None of them except Count uses a nan-aware NumPy function.
   `none` = the call raises (NumPy's ValueError / IndexError on an empty reduction).
@@ -170,4 +170,24 @@ def aggAxis (f : Vec → Option XR) (k : Nat) (arr : Arr) : Option Arr :=
     else ((fibers arr.data outer n inner).mapM f).map fun d => ⟨arr.dims.eraseIdx k, d⟩
 
 end Arr
+namespace Agg
+
+/-- NumPy's axis numbering: dimension `axis` counted from the front, or from the back when negative
+(−rank ≤ axis < rank); anything else is an `AxisError` -/
+def normAxis (rank : Nat) (axis : Int) : Option Nat :=
+  if 0 ≤ axis ∧ axis < (rank : Int) then some axis.toNat
+  else if axis < 0 ∧ -(rank : Int) ≤ axis then some (axis + (rank : Int)).toNat
+  else none
+
+/-- the call `aggregator(array, axis=axis)` as the classes of aggregator.py implement it: every class
+hands `axis` to NumPy — a reduction (`np.mean(array, axis=axis)`, …) or, for `Change` / `AbsChange`
+since their repair, `np.take(array, -1, axis=axis) - np.take(array, 0, axis=axis)` — so any
+−rank ≤ axis < rank names a dimension and anything else raises AxisError.  (Before the repair
+`Change` / `AbsChange` spelled the slicing out for `axis == 0 … 4` and raised NotImplementedError for
+negative axes and axes ≥ 5.)  `none` = the call raises (also: empty axis and the statistic raises on
+an empty sample). -/
+def callAxis (T : Tr) (a : Agg) (axis : Int) (arr : Arr) : Option Arr :=
+  (normAxis arr.dims.length axis).bind fun k => Arr.aggAxis (apply T a) k arr
+
+end Agg
 end VerifModel
